@@ -86,7 +86,7 @@ func c10LenTypes() []peer.Entry {
 func (c10) NRuns(tier string) int {
 	n := c10BuildEnum(tier).total + len(c10LenTypes())*256 + 10*2*24
 	if tier == "thorough" {
-		return n + 1500000
+		return n + 3000000
 	}
 	return n + 6000
 }
